@@ -434,14 +434,14 @@ M('C12-popleft-to-pop', 'C12', CONN, "self._write_packet(self._outgoing_packet_q
 M('C12-append-to-appendleft', 'C12', CONN, "            self._outgoing_packet_queue.append(packet)",
   "            self._outgoing_packet_queue.appendleft(packet)", rule='R12.3')
 M('C12-flush-after-close', 'C12', CONN,
-  "                    self.file_object.close()\n                    self.socket.close()\n                    self.socket = None",
-  "                    self.file_object.close()\n                    self.socket.close()\n                    while self._pop_packet():\n                        pass\n                    self.socket = None",
+  "                        self.file_object.close()\n                        self.socket.close()\n                        self.socket = None",
+  "                        self.file_object.close()\n                        self.socket.close()\n                        while self._pop_packet():\n                            pass\n                        self.socket = None",
   rule='R12.4')
 M('C12-flush-on-immediate', 'C12', CONN, "            if not immediate and self.socket is not None:",
   "            if self.socket is not None:", rule='R12.4')
 M('C12-flush-outside-lock', 'C12', CONN,
-  "        with self._write_lock:  # pylint: disable=not-context-manager\n            self.connected = False\n\n            if not immediate and self.socket is not None:\n                # Flush any packets remaining in the queue.\n                while self._pop_packet():\n                    pass\n",
-  "        if not immediate and self.socket is not None:\n            # Flush any packets remaining in the queue.\n            while self._pop_packet():\n                pass\n        with self._write_lock:  # pylint: disable=not-context-manager\n            self.connected = False\n",
+  "        with self._write_lock:  # pylint: disable=not-context-manager\n            self.connected = False\n\n            try:\n                if not immediate and self.socket is not None:\n                    # Flush any packets remaining in the queue.\n                    while self._pop_packet():\n                        pass\n            except IOError:",
+  "        try:\n            if not immediate and self.socket is not None:\n                while self._pop_packet():\n                    pass\n        except IOError:\n            pass\n        with self._write_lock:  # pylint: disable=not-context-manager\n            self.connected = False\n\n            try:\n                pass\n            except IOError:",
   rule='R12.2')
 M('C12-listener-between-sends', 'C12', PACKET,
   "        VarInt.send(len(packet_buffer.get_writable()), socket)  # Packet Size\n        socket.send(packet_buffer.get_writable())  # Packet Payload",
@@ -453,8 +453,8 @@ M('C12-keepalive-direct-write', 'C12', CONN,
   rule='R12.1')
 M('C12-lock-not-reentrant', 'C12', CONN, "        self._write_lock = RLock()",
   "        self._write_lock = threading.Lock()", rule='R12.2')
-M('C12-socket-not-cleared', 'C12', CONN, "                    self.socket.close()\n                    self.socket = None",
-  "                    self.socket.close()", rule='R12.4')
+M('C12-socket-not-cleared', 'C12', CONN, "                        self.socket.close()\n                        self.socket = None",
+  "                        self.socket.close()", rule='R12.4')
 M('C12-run-pop-outside-lock', 'C12', CONN,
   "            with self.connection._write_lock:\n                try:\n                    while not self.interrupt and self.connection._pop_packet():\n                        num_packets += 1\n                        if num_packets >= 300:\n                            break\n                    exc_info = None\n                except IOError:\n                    exc_info = sys.exc_info()\n",
   "            try:\n                while not self.interrupt and self.connection._pop_packet():\n                    num_packets += 1\n                    if num_packets >= 300:\n                        break\n                exc_info = None\n            except IOError:\n                exc_info = sys.exc_info()\n            with self.connection._write_lock:\n",
